@@ -102,7 +102,7 @@ class Case:
             l.append("printer 1")
         if self.meta.get("key_delay_ms"):
             l.append("key_delay_ms %d" % self.meta["key_delay_ms"])
-        for k in ("highlight", "signals", "paste", "helper_panic_at", "auto_add", "printers", "printers_late", "linger", "stdout_full", "stdin_ro", "preferterm", "stdout_relay", "stdout_close_after", "max_hist", "tab_stop", "indent_size", "prompt_limit", "show_all", "bell"):
+        for k in ("highlight", "signals", "paste", "helper_panic_at", "auto_add", "printers", "printers_late", "linger", "stdout_full", "stdin_ro", "preferterm", "stdout_relay", "stdout_close_after", "max_hist", "tab_stop", "indent_size", "prompt_limit", "show_all", "bell", "color_mode"):
             if k in self.meta:
                 l.append("%s %s" % (k, self.meta[k]))
         for ks, cmd in self.binds:
@@ -741,7 +741,7 @@ def c14_cases(tier, seed):
             elif r < 0.65:
                 keys.append(rng.choice(["Tab", "Tab", "Tab", "BackTab", "C-i"]))
             elif r < 0.75:
-                keys.append(rng.choice(["Esc", "C-g"]) if mode == "emacs" else rng.choice(["C-g", "Esc"]))
+                keys.append(rng.choice(["Esc", "C-g", "M-\x07"]) if mode == "emacs" else rng.choice(["C-g", "Esc"]))   # (M-C-g: readline's third abort key)
             elif r < 0.85:
                 keys.append(rng.choice(["C-_", "Left", "Home", "C-a", "Backspace", "C-w"]) if mode == "emacs"
                             else rng.choice(["Left", "Backspace", "Home"]))
